@@ -11,24 +11,24 @@ sys.path.insert(0, VERIF)
 
 TECH = {
     "C01": "custom AST/CFG static analysis: must-guard with truth tables over the size check (E1), prefix-sum sequence algebra and (start,length) code-layout agreement (E5/E6), view-coherence typestate (E2)",
-    "C02": "custom static analysis: guard truth tables + landmark-interval analysis of index bounds and slice normalisation (E1/E8), unit inference over view column arithmetic (E5), typestate of raw gathers (E2), operand routing (E4)",
-    "C03": "custom static analysis: effect/ownership analysis of buffer writers (E3), typestate for write-through (E2 VC4), guard truth tables (E1), dispatch-shape rules",
+    "C02": "custom static analysis: guard truth tables + landmark-interval analysis of index bounds and slice normalisation (E1/E8), unit inference over view column arithmetic (E5), typestate of raw gathers (E2), operand routing (E4), case-partitioned interval interpretation of the column-slice arithmetic for rows of 0-3 cells against Python's slice semantics (E9)",
+    "C03": "custom static analysis: effect/ownership analysis of buffer writers (E3), typestate for write-through (E2 VC4), guard truth tables (E1), dispatch-shape rules, interval interpretation of the addressed column range (E9)",
     "C04": "custom static analysis: must-guard in the operand loop (E1), operand-flow and weak-scalar analysis (E4), effect analysis (E3), table/idiom agreement for the XOR broadcast (E6/KB)",
     "C05": "custom static analysis: reduceat-hazard path rules and identity patch-up polarity (E1), registry/call-compatibility through decorators (E6/W0), dtype-class feasibility",
-    "C06": "custom static analysis: view-coherence typestate (materialised vs lazy view) over all RaggedArray code (E2), field-propagation/unit rules for view-of-view composition (E5), alias-exposure analysis (E3)",
+    "C06": "custom static analysis: view-coherence typestate (materialised vs lazy view) over all RaggedArray code (E2), field-propagation/unit rules for view-of-view composition (E5), alias-exposure analysis (E3), interval interpretation of column slices (E9)",
     "C07": "custom static analysis: extent-safe boundary gathers and prefix-sum alignment (E5/E8), lexsort key roles, row-boundary barriers, table agreement (E6), numpy-hazard rules",
     "C08": "custom static analysis: comprehension parallelism/sibling agreement (E6), searchsorted side rules (E5/U4), wrap/clamp idioms (E8), typestate (E2), operand order (E4)",
     "C09": "custom static analysis: dtype-class feasibility over the bincount branches, divisor/branch agreement (E6), unit rules for bincount operands (E5), typestate (E2)",
-    "C10": "custom static analysis: interprocedural freshness/alias and in-place-effect summaries over the whole call graph (E3); alias-exposure rule (EF4)",
+    "C10": "custom static analysis: interprocedural freshness/alias and in-place-effect summaries over the whole call graph (E3); alias-exposure rule (EF4); view-coherence typestate and deferred-effect (generator) rule (E2)",
     "C11": "custom static analysis: ownership/who-may-write (E3), must-guard for the absent-key refusal (E1), co-permutation and sibling agreement of the lookup routines (E6), numpy-hazard rules",
     "C12": "custom static analysis: typestate flag empty_removed (E1), co-selection and sibling-branch agreement of the three count branches (E6), buffered-update hazard (KB), ownership of the counts buffer (E3)",
     "C13": "custom static analysis: unit inference over register/entry/bit arithmetic (E5), guard and truncation must-pass rules (E1), effect analysis of pack (E3)",
     "C14": "custom static analysis: constructor-invariant guards with strictness atoms (E1), sanitizer-order typestate (remove_empty_intervals before join_runs), reinterpretation-width table (E6), numpy-hazard rules",
     "C15": "custom static analysis: landmark-interval analysis of slice bounds (E8), searchsorted side rules (U4), ceil-rescale and co-reversal order rules (U3), dispatch exhaustiveness, effect analysis (E3)",
-    "C16": "custom static analysis: operand-flow through the three ufunc branches and the boundary merge (E4), equal-length guard (E1), effect analysis (E3), reduction-shape rules",
+    "C16": "custom static analysis: operand-flow through the three ufunc branches and the boundary merge (E4), equal-length guard (E1), effect analysis (E3), reduction-shape rules, dtype-kind path rules from the numpy knowledge base (promotion of int64*uint64, integer mean accumulator)",
     "C17": "custom static analysis: operand-flow (E4), co-selection of boundaries and values (E6), encoder barriers and complementary-slice rules (U6), landmark intervals for column ranges (E8), dtype-class feasibility",
     "C18": "custom static analysis: must-pass of the equal-length check (E1), field-uniformity rules over every per-field operation (E6), zero-initialised right-aligned padding (E3/E5)",
-    "C19": "custom static analysis: totality/contiguity of the width-dependent gather over index kinds (E7/KB), configuration-store coherence over the class hierarchy (E6), sibling-branch layout agreement",
+    "C19": "custom static analysis: totality/contiguity of the width-dependent gather over index kinds (E7/KB), configuration-store coherence over the class hierarchy (E6), sibling-branch layout agreement, memoisation / exported-width rules for the mutable index dtype",
 }
 
 NOTE = ("Decides structural necessary conditions of the property from /repo's current source on every path "
